@@ -265,13 +265,14 @@ func checkRange4(c rangeCase) []vf.Finding {
 		fs = append(fs, vf.F("IPv4Range.Contains", "differs-from-unsigned-comparison", "%s in [%s,%s]: got %v", v4{c.IP, c.IPBits}, v4{c.Start, c.StartBits}, v4{c.End, c.EndBits}, got))
 	}
 	ops.check("IPv4Range.Contains", &fs)
-	// address ranges have no parser and the property fixes no format for them: the text must name both endpoints
-	// (their dotted addresses, with or without a prefix length), start before end
+	// address ranges have no parser and the property says nothing about their text (10.0.0.1-10.0.0.9, 10.0.0.1-9,
+	// ... are all in use): the text must not be empty and must be the same every time it is asked for
 	got := r.String()
 	ops.check("IPv4Range.String", &fs)
-	if da, db := dotted(c.Start), dotted(c.End); !inOrder(got, da, db) {
-		fs = append(fs, vf.F("IPv4Range.String", "text-lacks-endpoints-in-order", "got %q for start %s end %s", got, da, db))
+	if again := r.String(); strings.TrimSpace(got) == "" || again != got {
+		fs = append(fs, vf.F("IPv4Range.String", "text-empty-or-unstable", "start %s end %s: got %q, then %q", dotted(c.Start), dotted(c.End), got, again))
 	}
+	ops.check("IPv4Range.String", &fs)
 	// the masks of the three operands (each has a prefix of its own), then the question once more
 	for _, p := range []*ip.IPv4{x, a, b} {
 		p.ComputeMask()
@@ -287,21 +288,6 @@ func checkRange4(c rangeCase) []vf.Finding {
 
 func dotted(a uint32) string {
 	return fmt.Sprintf("%d.%d.%d.%d", uint8(a>>24), uint8(a>>16), uint8(a>>8), uint8(a))
-}
-
-// inOrder: s contains a and, after that occurrence of a, b
-func inOrder(s, a, b string) bool {
-	for from := 0; from <= len(s); {
-		i := strings.Index(s[from:], a)
-		if i < 0 {
-			return false
-		}
-		if strings.Contains(s[from+i+len(a):], b) {
-			return true
-		}
-		from += i + 1
-	}
-	return false
 }
 
 func TestIPv4Range(t *testing.T) {
@@ -458,18 +444,22 @@ type portCase struct {
 func checkPorts(c portCase) []vf.Finding {
 	r := ip.NewTCPPortRange(c.Start, c.End)
 	var fs []vf.Finding
-	if r.Start != c.Start || r.End != c.End {
+	// the constructed range is made of the two ports given (a constructor may put them in order)
+	if !(r.Start == c.Start && r.End == c.End) && !(r.Start == c.End && r.End == c.Start) {
 		fs = append(fs, vf.F("ip.NewTCPPortRange", "value-differs", "%d, %d -> %+v", c.Start, c.End, *r))
 	}
-	// no literal format is demanded: the printed text goes through the library's own parser
-	p, err := ip.NewTCPPortRangeFromString(r.String())
-	if err != nil || p == nil {
-		fs = append(fs, vf.F("ip.NewTCPPortRangeFromString", "own-text-rejected", "%q: %v", r.String(), err))
-	} else if !sameExported(p, r) || p.Start != c.Start || p.End != c.End {
-		fs = append(fs, vf.F("ip.NewTCPPortRangeFromString", "print-parse-not-identity", "%d-%d: %q -> %+v", c.Start, c.End, r.String(), *p))
+	built := *r // the value as constructed
+	// no literal format is demanded: the printed text goes through the library's own parser and must give the
+	// constructed value back
+	txt := r.String()
+	if !sameExported(r, &built) {
+		fs = append(fs, vf.F("TCPPortRange.String", "call-modifies-its-operand", "the range built from %d, %d was %+v and is %+v after it was printed", c.Start, c.End, built, *r))
 	}
-	if r.Start != c.Start || r.End != c.End {
-		fs = append(fs, vf.F("TCPPortRange.String", "call-modifies-its-operand", "the range %d-%d is %+v after it was printed", c.Start, c.End, *r))
+	p, err := ip.NewTCPPortRangeFromString(txt)
+	if err != nil || p == nil {
+		fs = append(fs, vf.F("ip.NewTCPPortRangeFromString", "own-text-rejected", "%q: %v", txt, err))
+	} else if !sameExported(p, &built) {
+		fs = append(fs, vf.F("ip.NewTCPPortRangeFromString", "print-parse-not-identity", "range %+v built from %d, %d: %q -> %+v", built, c.Start, c.End, txt, *p))
 	}
 	return fs
 }
@@ -561,14 +551,25 @@ func checkHashes(c hashCase) []vf.Finding {
 	} else if !strings.EqualFold(lm1, lm0) || !strings.EqualFold(nt1, nt0) {
 		fs = append(fs, vf.F("credentials.ParseLMNTHashes", "padding-changes-result", "%q -> (%q,%q) but %q -> (%q,%q)", bare, lm0, nt0, padded, lm1, nt1))
 	}
-	// the same through NewCredentials, whatever domain, user name and password are given next to the hashes
+	// the same through NewCredentials, whatever domain, user name and password are given next to the hashes: the
+	// padded specification is treated as the bare one is under the same other arguments - both refused (a
+	// constructor may insist on a user name, say), or both accepted with the same hashes, which are the ones given:
+	// the NT hash, and the LM hash where one was given (where none was, an implementation may fill in the LM hash of
+	// the empty password)
 	for _, a := range [][3]string{{"DOM", "user", ""}, {c.Domain, c.User, c.Password}} {
+		cb, errB := credentials.NewCredentials(a[0], a[1], a[2], bare)
 		cr, err := credentials.NewCredentials(a[0], a[1], a[2], padded)
-		if err != nil || cr == nil {
-			fs = append(fs, vf.F("credentials.NewCredentials", "padding-changes-acceptance", "NewCredentials(%q, %q, %q, %q): %v", a[0], a[1], a[2], padded, err))
-		} else if !strings.EqualFold(cr.GetLMHash(), c.LM) || !strings.EqualFold(cr.GetNTHash(), c.NT) {
+		okB, ok := errB == nil && cb != nil, err == nil && cr != nil
+		switch {
+		case okB != ok:
+			fs = append(fs, vf.F("credentials.NewCredentials", "padding-changes-acceptance", "NewCredentials(%q, %q, %q, %q): %v, but NewCredentials(%q, %q, %q, %q): %v", a[0], a[1], a[2], bare, errB, a[0], a[1], a[2], padded, err))
+		case !ok:
+			// refused with an error, padded or not: nothing is discarded silently
+		case !strings.EqualFold(cr.GetLMHash(), cb.GetLMHash()) || !strings.EqualFold(cr.GetNTHash(), cb.GetNTHash()):
+			fs = append(fs, vf.F("credentials.NewCredentials", "padding-changes-result", "NewCredentials(%q, %q, %q, %q) -> lm %q nt %q, but with %q -> lm %q nt %q", a[0], a[1], a[2], bare, cb.GetLMHash(), cb.GetNTHash(), padded, cr.GetLMHash(), cr.GetNTHash()))
+		case !strings.EqualFold(cr.GetNTHash(), c.NT) || c.LM != "" && !strings.EqualFold(cr.GetLMHash(), c.LM):
 			fs = append(fs, vf.F("credentials.NewCredentials", "valid-hash-discarded", "NewCredentials(%q, %q, %q, %q) -> lm %q nt %q", a[0], a[1], a[2], padded, cr.GetLMHash(), cr.GetNTHash()))
-		} else if c.NT != "" && a[1] != "" && a[2] == "" && !cr.CanPassTheHash() {
+		case c.NT != "" && a[1] != "" && a[2] == "" && !cr.CanPassTheHash():
 			fs = append(fs, vf.F("Credentials.CanPassTheHash", "false-with-nt-hash", "NewCredentials(%q, %q, %q, %q)", a[0], a[1], a[2], padded))
 		}
 		if a == [3]string{c.Domain, c.User, c.Password} {
